@@ -92,8 +92,11 @@ class FiniteRandomVariable(SingleSweep):
         prev_state = random.getstate()
         # Generate self.length random values starting with the seed
         random.seed(self.seed)
+        # In sorted order: equal sweeps (e.g. one read back from its proto, whose map is unordered)
+        # must yield the same values.
+        items = sorted(self.distribution.items())
         random_values = random.choices(
-            list(self.distribution.keys()), list(self.distribution.values()), k=self.length
+            [value for value, _ in items], [weight for _, weight in items], k=self.length
         )
         # Restore the RNG state
         random.setstate(prev_state)
